@@ -43,7 +43,8 @@ META = {
     "exhaustive": True,
     "bounds": {
         "quick": {"A": "L=1..4 cross and auto, 5 windows (rect, ramp, Hann, Kaiser, one with interior zeros and negative taps), <=7 frequencies, 4 orders, numba+numpy+cuda-sim",
-                  "B": "N=7, L=1..7, K=1..3 ordered start sequences, 3 windows x 3 freqs x 4 orders"},
+                  "B": "N=7, L=1..7, K=1..3 ordered start sequences, 3 windows x 3 freqs x 4 orders",
+                  "D": "two large bins per backend/mode/order: K=300 x L=4096 and K=33000 x L=40 (K*L > 2^20, K above the NumPy default chunk sizes)"},
         "thorough": {"A": "L=1..5 cross, L=1..7 auto", "B": "N=7, K=1..4; N=9 K<=3",
                      "C": "L in {64,257,1024,4096}"},
     },
@@ -96,6 +97,12 @@ def shards(tier, seed):
         for cross in (True, False):
             out.append({"part": "B", "backend": "cuda", "N": 7, "L": L, "rx": "id1", "ry": "id2",
                         "Kmax": 2 if tier == "quick" else 3, "seed": seed, "only_cross": cross})
+    # part D: bins with a very large number of gathered samples K*L (beyond 2^20) and more segments than the NumPy
+    # fallbacks' default chunk sizes (8192 / 16384 / 32768)
+    for backend in ("numba", "numpy"):
+        for shape in ((300, 4096), (33000, 40)):
+            for cross in (True, False):
+                out.append({"part": "D", "backend": backend, "K": shape[0], "L": shape[1], "cross": cross, "seed": seed})
     if tier == "thorough":
         for backend in ("numba", "numpy"):
             for L in (64, 257, 1024, 4096):
@@ -103,7 +110,7 @@ def shards(tier, seed):
         out.append({"part": "C", "backend": "cuda", "L": 257, "seed": seed})
     # expensive shards first for better packing
     def cost(s):
-        if s["part"] == "C":
+        if s["part"] in ("C", "D"):
             return 1e9
         if s["part"] == "B":
             nseq = sum((s["N"] - s["L"] + 1) ** k for k in range(1, s["Kmax"] + 1))
@@ -133,7 +140,7 @@ def _via_sim(shard):
 def run_shard(shard):
     if shard["backend"] == "cuda" and not IN_SIM:
         return _via_sim(shard)
-    return {"A": _part_A, "B": _part_B, "C": _part_C, "A1": _single}[shard["part"]](shard)
+    return {"A": _part_A, "B": _part_B, "C": _part_C, "D": _part_D, "A1": _single}[shard["part"]](shard)
 
 
 def replay(case):
@@ -340,4 +347,31 @@ def _part_C(shard):
                                 fails.append(_mkfail(shard, "C", bad, got, ref, tol, case))
         if not samples:
             samples.append({"part": "C", "backend": backend, "L": L, "N": N, "records": [ra, rb]})
+    return {"evals": evals, "nontrivial": nontriv, "failures": fails, "samples": samples}
+
+
+def _part_D(shard):
+    """Large bins: K*L > 2^20 gathered samples; K above every default chunk size of the NumPy fallbacks."""
+    K, L, backend, cross = shard["K"], shard["L"], shard["backend"], shard["cross"]
+    step = 7 if K < 1000 else 1
+    N = L + step * (K - 1) + 3
+    x = np.ascontiguousarray(records.id1(N) + 0.3 * records.id3(N))
+    y = np.ascontiguousarray(records.id2(N))
+    starts = np.ascontiguousarray((np.arange(K, dtype=np.int64) * step)[::-1])  # descending: unsorted starts
+    fails, samples = [], []
+    evals = nontriv = 0
+    for order in ORDERS:
+        k = kern.get_kernel(backend, cross, order)
+        for wn, w in (("hann", 2 * np.pi * 3.37 / L), ("gapneg", 0.9)):
+            win = _window(wn, L)
+            ref = est.ref_stats(x, y if cross else None, starts, L, win, w, order)
+            tol = est.tolerances(x, y if cross else None, starts, L, win, m2ref=ref[4])
+            got = k(x, y if cross else None, starts, L, win, float(w))
+            evals += 1
+            nontriv += int(kern.nontrivial(ref, tol))
+            bad = kern.compare(got, ref, tol)
+            if bad:
+                key = f"D/{backend}/{'csd' if cross else 'auto'}/order={order}/{'+'.join(bad)}"
+                fails.append(fw.fail(key, f"{key}: K={K} segments of L={L} (K*L={K * L}) win={wn} w={w:.5g}: got {got} reference {ref} tol {tol}", dict(shard)))
+    samples.append({"part": "D", "backend": backend, "K": K, "L": L, "KL": K * L})
     return {"evals": evals, "nontrivial": nontriv, "failures": fails, "samples": samples}
